@@ -2,7 +2,10 @@ module verif/engine
 
 go 1.25
 
-require golang.org/x/tools v0.39.0
+require (
+	github.com/onflow/fixed-point v0.1.1
+	golang.org/x/tools v0.39.0
+)
 
 require (
 	golang.org/x/mod v0.30.0 // indirect
